@@ -599,7 +599,7 @@ def structural_min(spec, c=None):
         return structural_min(spec["child"], c) + l + r
     if k == "panel":
         _, r, _, l = unpack_pad(spec["padding"])
-        return max(structural_min(spec["child"], c) + 2 + l + r, 4 if (spec["title"] or spec.get("title_text")) else 2)
+        return structural_min(spec["child"], c) + 2 + l + r      # (a title needs no room of its own: it is cut to fit)
     if k in ("align", "constrain", "styled", "nomeasure", "richcast", "ctrl"):
         return structural_min(spec["child"], c)
     if k == "group":
